@@ -209,6 +209,16 @@ void CPCA(tensor *x, int scaling, size_t npc, CPCAMODEL *model)
     for(k = 0; k < Eb->order; k++){
       initDVector(&colvar);
       MatrixColVar(Eb->m[k], colvar);
+      if(scaling < 0){
+        /* without centring a constant column has variance 0 but may carry all of
+         * the block's sum of squares: rank the columns by sum of squares (as PCA does)
+         */
+        for(j = 0; j < Eb->m[k]->col; j++){
+          colvar->data[j] = 0.f;
+          for(i = 0; i < Eb->m[k]->row; i++)
+            colvar->data[j] += square(Eb->m[k]->data[i][j]);
+        }
+      }
       /* Step 1: select the column vector t with the largest column variance */
       j = 0;
       for(i = 1; i < Eb->m[k]->col; i++){
